@@ -1363,10 +1363,10 @@ Proof.
 Qed.
 
 (* the outputs the quick sampler considers: the input's photon number on the
-   input's modes (photon number conserved), threshold detectors keep max = 1 *)
+   input's modes (photon number conserved), threshold detectors keep max <= 1 *)
 Definition qs_basis (pc : bool) (input : state) : list state :=
   let basis := map zs (fock_sums (length input) (Z.to_nat (zsum input))) in
-  if pc then basis else filter (fun s => Z.eqb (zmax s) 1) basis.
+  if pc then basis else filter (fun s => Z.leb (zmax s) 1) basis.
 Definition qs_cands (ps : state -> res bool) (pc : bool) (input : state) : list state :=
   filter (ps_acc ps) (qs_basis pc input).
 
@@ -1397,7 +1397,7 @@ Lemma qs_basis_iff pc input x :
   length input <> 0 -> Forall (fun v => (0 <= v)%Z) input ->
   (In x (qs_basis pc input) <->
    length x = length input /\ Forall (fun v => (0 <= v)%Z) x /\ zsum x = zsum input /\
-   (pc = true \/ zmax x = 1%Z)).
+   (pc = true \/ (zmax x <= 1)%Z)).
 Proof.
   intros Hm Hpos.
   assert (Hs : (0 <= zsum input)%Z).
@@ -1412,14 +1412,14 @@ Proof.
       apply Nat2Z.inj. rewrite osum_znat by exact H2. lia. }
   unfold qs_basis. cbv zeta. destruct pc.
   - rewrite Hb. intuition.
-  - rewrite filter_In, Hb, Z.eqb_eq. intuition discriminate.
+  - rewrite filter_In, Hb, Z.leb_le. intuition discriminate.
 Qed.
 
 Lemma qs_cands_iff ps pc input x :
   length input <> 0 -> Forall (fun v => (0 <= v)%Z) input ->
   (In x (qs_cands ps pc input) <->
    (length x = length input /\ Forall (fun v => (0 <= v)%Z) x /\ zsum x = zsum input /\
-    (pc = true \/ zmax x = 1%Z)) /\ ps x = Ok true).
+    (pc = true \/ (zmax x <= 1)%Z)) /\ ps x = Ok true).
 Proof.
   intros Hm Hp. unfold qs_cands. rewrite filter_In, (qs_basis_iff pc input x Hm Hp). unfold ps_acc.
   destruct (ps x) as [[|]|]; intuition congruence.
@@ -1453,6 +1453,16 @@ Proof.
     { intros E. rewrite E in Hle. assert (zsum s <= 0)%Z; [|lia].
       clear -Hle. induction Hle; simpl; lia. }
     lia.
+Qed.
+
+(* the threshold filter: "max <= 1" is "at most one photon per mode", for every state *)
+Lemma zmax_le1_iff s : (zmax s <= 1)%Z <-> Forall (fun v => (v <= 1)%Z) s.
+Proof.
+  induction s as [|x s IH]; simpl.
+  - split; [constructor|lia].
+  - split.
+    + intros H. constructor; [lia|]. apply IH. lia.
+    + intros H. inversion H; subst. apply IH in H3. lia.
 Qed.
 
 Section QuickSampler.
@@ -1777,12 +1787,14 @@ Section Totality.
     split; [eexists; reflexivity|]. split; [eexists; reflexivity|]. split; [reflexivity|eexists; reflexivity].
   Qed.
 
-  (* the quick sampler refuses threshold detection on a vacuum input (it keeps
-     max(s) == 1, not <= 1), which the Sampler accepts *)
-  Theorem quick_sampler_vacuum_threshold_rejected eps (U : mat) :
+  (* before fix 3ccdb7f the quick sampler refused threshold detection on a
+     vacuum input (max(s) == 1 left no candidate), which the Sampler accepts; the
+     repaired filter keeps the vacuum *)
+  Theorem quick_sampler_vacuum_threshold_pinned_refuted eps (U : mat) :
     (exists d, sampler_dist o Permanent eps 2 0 U [] [0%Z; 0%Z] = Ok d) /\
-    quick_sampler o eps 2 0 U [] [] (fun _ => Ok true) false [0%Z; 0%Z] = Err ValueError.
-  Proof. split; [eexists; reflexivity|reflexivity]. Qed.
+    qs_candidates_pinned (fun _ => Ok true) false [0%Z; 0%Z] = Err ValueError /\
+    qs_candidates (fun _ => Ok true) false [0%Z; 0%Z] = Ok [[0%Z; 0%Z]].
+  Proof. split; [eexists; reflexivity|]. split; reflexivity. Qed.
 
   (* Everything analyze() does after its guard works for ANY well-formed heralds
      (photons or not, input mode = or <> output mode) that hold the same number
@@ -2025,3 +2037,40 @@ Proof.
   intros H. destruct (analyze_ok (o:=rops) _ _ _ _ _ _ _ _ _ H) as [_ Hb].
   exact (error_rate_spec n l U hin hout ps inputs e r Hb).
 Qed.
+
+(* ------------------------------------------------------------------ *)
+(* two recorded behaviours over the reals                              *)
+(* ------------------------------------------------------------------ *)
+Section Recorded.
+  Local Open Scope R_scope.
+
+  (* the repaired quick sampler accepts a vacuum input with threshold detectors *)
+  Theorem quick_sampler_vacuum_threshold_accepted (U : @mat C) :
+    exists pd, quick_sampler rops 0 2 0 U [] [] (fun _ => Ok true) false [0%Z; 0%Z] = Ok pd.
+  Proof.
+    apply (quick_sampler_total rops 0 2 0 U [] [] (fun _ => Ok true) false [0%Z; 0%Z]).
+    - simpl. lia.
+    - split; [constructor|split; [intros k []|constructor]].
+    - split; [constructor|split; [intros k []|constructor]].
+    - reflexivity.
+    - reflexivity.
+    - split; [reflexivity|repeat constructor; lia].
+    - intros s. exists true. reflexivity.
+    - exists [0%Z; 0%Z], [0%Z; 0%Z]. split; [left; reflexivity|]. split; [reflexivity|].
+      apply klt_spec. unfold qs_w. simpl add_heralds_to_state. cbv iota.
+      change (znat [0%Z; 0%Z] ++ repeat 0%nat 0) with (repeat 0%nat 2).
+      rewrite prob_vac. lra.
+  Qed.
+
+  (* a state listed twice in expected[s] is subtracted twice: the row error is
+     1 - 2 p/total, not one minus the expected fraction p/total *)
+  Theorem error_rate_duplicate_refuted (x y : state) :
+    st_eqb x y = false ->
+    an_row_error rops [1; 0] [x; y] [x; x] = Some (1 - 1 - 1) /\
+    an_row_error rops [1; 0] [x; y] [x] = Some (1 - 1).
+  Proof.
+    intros _. unfold an_row_error. simpl.
+    assert (Ex : st_eqb x x = true) by (apply st_eqb_eq; reflexivity). rewrite Ex. simpl.
+    destruct (Req_EM_T (1 + (0 + 0)) 0) as [E|_]; [lra|]. split; do 2 f_equal; field.
+  Qed.
+End Recorded.
